@@ -36,11 +36,12 @@ ASSUMPTIONS = ['one failing allocation per operation (pairs in thorough for mult
 
 def bounds(tier):
     return ('quick: cover families, trees N=5 @2/2 and N=4 @3/2 x 3 routes, leaves N=4, other families '
-            'N=3; thorough: all families N=6 @2/2, N=5 @3/2, 2/3, pairs of failures for update')
+            'N=3; object-keyed families OO OI OU again with MORTAL key/value objects and a reference ledger '
+            '(N=4 @2/2, 3/2, leaves); thorough: all families N=6 @2/2, N=5 @3/2, 2/3, pairs of failures for update')
 
 
 def required_guards(tier):
-    return ['faults_injected', 'memoryerror_raised', 'route:api', 'route:unpickled', 'route:slack',
+    return ['faults_injected', 'memoryerror_raised', 'ledger_audits', 'route:api', 'route:unpickled', 'route:slack',
             'op:insert', 'op:update', 'op:setop', 'op:setstate', 'op:merge', 'op:multiunion',
             'height>=3', 'completed_or_unchanged']
 
@@ -71,6 +72,14 @@ def jobs(tier):
     js = [{'fn': 'job', 'weight': w, 'group': kind, 'flavour': 'asan',
            'args': dict(fam=fam, kind=kind, sizes=sizes, n=n, tier=tier)}
           for fam, kind, sizes, n, w in configs(tier)]
+    # object-keyed families once more with MORTAL key (and value) objects and the reference ledger
+    for fam in (('OO', 'OI', 'OU') if tier == 'quick' else ('OO', 'OI', 'OU', 'OL', 'OQ')):
+        for kind in F.KINDS:
+            tree = kind in F.TREE_KINDS
+            for sizes in (((2, 2), (3, 2)) if tree else (None,)):
+                js.append({'fn': 'job', 'weight': 12, 'group': kind + '/ledger', 'flavour': 'asan',
+                           'args': dict(fam=fam, kind=kind, sizes=sizes,
+                                        n=4 if tier == 'quick' else 5, tier=tier, variant='K')})
     for fam in F.FAMILIES:
         if F.has_multiunion(fam):
             js.append({'fn': 'multiunion_job', 'weight': 3, 'group': 'multiunion', 'flavour': 'asan',
@@ -204,12 +213,21 @@ def alloc_ops(ctx, keys, grid, vals, present):
     return ops
 
 
-def job(fam, kind, sizes, n, tier):
+def job(fam, kind, sizes, n, tier, variant='centred'):
+    import sys
     from BTrees.check import check as bcheck
     ctx = O.Ctx(fam, kind, 'c')
     hook = F.cmodule(fam)._verif_alloc
-    ex = S.explorer(fam, kind, 'c', sizes, n, 'centred', 'C17')
+    ex = S.explorer(fam, kind, 'c', sizes, n, variant, 'C17')
     keys, grid, vals = ex.keys, ex.grid, ex.vals
+    # reference ledger (variant 'K': mortal key objects - small ints are immortal in CPython 3.12 and
+    # hide a reference given away or taken twice on an error exit): the harness' own references to the
+    # universe's key objects are the same before and after a faulted execution, so the counts must be.
+    ledger = [k for k in grid] if variant == 'K' else []
+    if variant == 'K' and fam[1] == 'O':
+        vals = (''.join(['val', 'ue-a']), ''.join(['val', 'ue-b']))     # mortal value objects
+        ex.vals = vals
+        ledger += list(vals)
     states = []
     ex.state_monitors.append(lambda e, hist, t, model, c: states.append((hist, model.copy(), c)))
     ex.run()
@@ -219,7 +237,7 @@ def job(fam, kind, sizes, n, tier):
     ismap, tree = ctx.is_map, ctx.is_tree
     evaluations = 0
     sample = None
-    base = dict(fam=fam, kind=kind, sizes=sizes, n=n, flavour='asan')
+    base = dict(fam=fam, kind=kind, sizes=sizes, n=n, flavour='asan', variant=variant)
 
     def followup(t, start):
         m = model_for(kind, start)
@@ -275,6 +293,10 @@ def job(fam, kind, sizes, n, tier):
                 outcomes['%s/%d-allocations' % (tag, min(cnt, 9))] += 1
                 for i in range(cnt):
                     slot.set(('C17', fam, kind, sizes, hist, rname, name, i, cnt))
+                    t = thunk = r = after = probs = None
+                    case = dict(base, history=[list(o) for o in hist], route=rname, op=name, nth=i, of=cnt)
+                    sig = dict(fam=fam, kind=kind, site=name, tag=tag, route=rname)
+                    rc0 = [sys.getrefcount(o) for o in ledger]
                     t = build()
                     thunk, _ = prepare(t)
                     hook(i)
@@ -283,8 +305,6 @@ def job(fam, kind, sizes, n, tier):
                     evaluations += 1
                     guards['faults_injected'] += 1
                     guards['op:' + tag] += 1
-                    case = dict(base, history=[list(o) for o in hist], route=rname, op=name, nth=i, of=cnt)
-                    sig = dict(fam=fam, kind=kind, site=name, tag=tag, route=rname)
                     if seen <= i:
                         rep.add(dict(sig, cls='nondeterministic-count'), case,
                                 'allocation #%d not reached on the second run (%d counted, %d seen)'
@@ -327,9 +347,19 @@ def job(fam, kind, sizes, n, tier):
                     if not okf:
                         rep.add(dict(sig, cls='followup'), case,
                                 'the container misbehaves after the failed %s' % name)
-                    if sample is None and tag == 'insert' and cnt >= 3 and i == 1:
+                    if ledger:
+                        t = thunk = r = after = probs = None
+                        rc1 = [sys.getrefcount(o) for o in ledger]
+                        guards['ledger_audits'] += 1
+                        if rc1 != rc0:
+                            bad = [(repr(o), a, b) for o, a, b in zip(ledger, rc0, rc1) if a != b]
+                            rep.add(dict(sig, cls='refcount-moved'), case,
+                                    'after allocation #%d of %d failed in %s and the container was dropped, '
+                                    'reference counts of key/value objects moved (object, before, after): %r'
+                                    % (i, cnt, name, bad[:4]))
+                    if sample is None and tag == 'insert' and cnt >= 3 and i == 1 and not ledger:
                         sample = case
-                    del t
+                    t = None
     hook()
     return dict(evaluations=evaluations, distinct=evaluations, exhaustive=not rep.full,
                 guards=dict(guards), outcomes=dict(outcomes), violations=rep.all(), sample=sample)
@@ -383,7 +413,11 @@ def replay(case):
         r = multiunion_job(case['fam'])
         return dict(violations=[v for v in r['violations']
                                 if all(v['case'].get(k) == case.get(k) for k in ('n', 'form', 'nth'))])
-    r = job(case['fam'], case['kind'], case['sizes'] and tuple(case['sizes']), case['n'], 'quick')
-    vs = [v for v in r['violations'] if all(v['case'].get(k) == case.get(k)
+    r = job(case['fam'], case['kind'], case['sizes'] and tuple(case['sizes']), case['n'], 'quick',
+            case.get('variant', 'centred'))
+    import json
+    from ..runner import _jsonable
+    norm = lambda x: json.dumps(_jsonable(x), sort_keys=True, default=repr)
+    vs = [v for v in r['violations'] if all(norm(v['case'].get(k)) == norm(case.get(k))
                                             for k in ('history', 'route', 'op', 'nth'))]
     return dict(violations=vs)
